@@ -5,7 +5,7 @@ import families
 import oracle
 from common import check_cache, fail, make_sd, net_info, run_history, states_json
 
-BOUND = ("networks with <= 6 variables (exhaustive 1-variable, sampled 2-variable, seeded random 3-6(7) variables), hand-built networks with <= 10 variables "
+BOUND = ("one general case in six is repeated with the configuration key debug=True (output swallowed); networks with <= 6 variables (exhaustive 1-variable, sampled 2-variable, seeded random 3-6(7) variables), hand-built networks with <= 10 variables "
          "(incl. 10 source variables with the default configuration, the D1/D2/D8/D11 inputs); every node of the diagram reached by a seeded prefix "
          "(none / root expanded / full bfs / <= 2 random plain calls / block / scc); all 4 combinations of greedy_asp_minification x "
          "simulation_minification; retained_set_optimization_threshold, attractor_candidates_limit in {0,1,2,3,5,default}, minimum_simulation_budget in "
@@ -71,10 +71,22 @@ def general_cases(seed, tier):
                 pre = rng.choice(PREFIXES)
             else:
                 pre = families.random_history(rng.randrange(1 << 30), names, rng.randint(1, 2), families.PLAIN_OPS)
-            yield {"net": name, "bnet": bnet, "prefix": pre, "config": config_variants(rng) if rnd else {}, "greedy": rng.random() < 0.5, "sim": rng.random() < 0.5}
+            case = {"net": name, "bnet": bnet, "prefix": pre, "config": config_variants(rng) if rnd else {}, "greedy": rng.random() < 0.5, "sim": rng.random() < 0.5}
+            yield case
+            if rnd == 2:
+                yield dict(case, config=dict(case["config"], debug=True))      # the same case with the library's debug output switched on
 
 
 def check_with_info(case):
+    """debug output is part of the configuration (`debug`): with it switched on the results must be the same; the prints are swallowed"""
+    if case.get("config", {}).get("debug"):
+        import contextlib, io
+        with contextlib.redirect_stdout(io.StringIO()):
+            return _check_with_info(case)
+    return _check_with_info(case)
+
+
+def _check_with_info(case):
     from common import owned
 
     net = oracle.Net.from_bnet(case["bnet"])
